@@ -11,6 +11,7 @@ import (
 	"go/ast"
 	"go/printer"
 	"go/token"
+	"strconv"
 	"strings"
 )
 
@@ -125,4 +126,138 @@ func c20ResponseCap(l *lean, cl *ast.File) {
 		}
 	}
 	l.def("clientDoShape", "List String", leanStrList(do), do)
+}
+
+// c20StrConst returns the value of a string constant
+func c20StrConst(f *ast.File, name string) (string, bool) {
+	if e := c20ConstExpr(f, name); e != nil {
+		if bl, ok := e.(*ast.BasicLit); ok && bl.Kind == token.STRING {
+			v, err := strconv.Unquote(bl.Value)
+			return v, err == nil
+		}
+	}
+	return "", false
+}
+
+// c20Calls lists, in source order, the package-level functions of `names` called in a block
+func c20Calls(b ast.Node, names map[string]bool) []string {
+	var out []string
+	ast.Inspect(b, func(n ast.Node) bool {
+		if c, ok := n.(*ast.CallExpr); ok {
+			if id, ok := c.Fun.(*ast.Ident); ok && names[id.Name] {
+				out = append(out, id.Name)
+			}
+		}
+		return true
+	})
+	return out
+}
+
+func c20Sources(l *lean) {
+	_, sc := parseFile("core/server_config.go")
+	_, cf := parseFile("core/config.go")
+	for _, c := range [][2]string{{"defaultEnvPrefix", "envPrefix"}, {"defaultEnvDelimiter", "envDelimiter"}, {"defaultDelimiter", "keyDelimiter"}, {"configValueListSeparator", "listSeparator"}} {
+		if v, ok := c20StrConst(sc, c[0]); ok {
+			l.def(c[1], "List Nat", c20Bytes(v), v)
+		} else {
+			l.sb.WriteString("def " + c[1] + " : List Nat := unknown_const_" + c[0] + "\n")
+		}
+	}
+	// loadFromEnv: the key callback expression, the value callback statements, the escape string
+	var keyExpr, esc string
+	var valStmts []string
+	escOK := false
+	if fd := funcDecl(cf, "loadFromEnv"); fd != nil {
+		ast.Inspect(fd.Body, func(n ast.Node) bool {
+			switch x := n.(type) {
+			case *ast.FuncLit:
+				valStmts = c20Stmts(x.Body)
+			case *ast.AssignStmt:
+				if len(x.Lhs) == 1 && c20Src(x.Lhs[0]) == "key" {
+					keyExpr = c20Src(x.Rhs[0])
+				}
+			case *ast.CallExpr:
+				if c20Src(x.Fun) == "splitWithEscaping" && len(x.Args) == 3 {
+					if bl, ok := x.Args[2].(*ast.BasicLit); ok && bl.Kind == token.STRING && c20Src(x.Args[1]) == "configValueListSeparator" && c20Src(x.Args[0]) == "rawValue" {
+						esc, _ = strconv.Unquote(bl.Value)
+						escOK = true
+					}
+				}
+			}
+			return true
+		})
+	}
+	l.def("envKeyExpr", "String", strconv.Quote(keyExpr), keyExpr)
+	if escOK {
+		l.def("listEscape", "List Nat", c20Bytes(esc), esc)
+	} else {
+		l.sb.WriteString("def listEscape : List Nat := unknown_split_with_escaping_call\n")
+	}
+	l.def("envValueShape", "List String", leanStrList(valStmts), valStmts)
+	var sw []string
+	if fd := funcDecl(cf, "splitWithEscaping"); fd != nil {
+		sw = c20Stmts(fd.Body)
+	}
+	l.def("splitWithEscapingShape", "List String", leanStrList(sw), sw)
+	// loadConfigMap: order of the sources; loadFromFlagSet: the provider call (its third argument makes defaults non-overwriting)
+	var order, prov []string
+	for _, d := range sc.Decls {
+		if fd, ok := d.(*ast.FuncDecl); ok && fd.Name.Name == "loadConfigMap" {
+			order = c20Calls(fd.Body, map[string]bool{"loadFromFile": true, "loadFromEnv": true, "loadFromFlagSet": true})
+		}
+	}
+	l.def("loadSourceOrder", "List String", leanStrList(order), order)
+	if fd := funcDecl(cf, "loadFromFlagSet"); fd != nil {
+		ast.Inspect(fd.Body, func(n ast.Node) bool {
+			if c, ok := n.(*ast.CallExpr); ok && c20Src(c.Fun) == "posflag.Provider" {
+				prov = append(prov, c20Src(c))
+			}
+			return true
+		})
+	}
+	l.def("flagProviderCalls", "List String", leanStrList(prov), prov)
+	// Load: the sequence of checks (one entry per top-level statement that can return an error), logger formats accepted
+	var steps, formats []string
+	for _, d := range sc.Decls {
+		fd, ok := d.(*ast.FuncDecl)
+		if !ok || fd.Name.Name != "Load" || fd.Recv == nil || c20Src(fd.Recv.List[0].Type) != "*ServerConfig" {
+			continue
+		}
+		for _, st := range fd.Body.List {
+			switch x := st.(type) {
+			case *ast.IfStmt:
+				if x.Init != nil {
+					steps = append(steps, "call:"+c20Src(x.Init.(*ast.AssignStmt).Rhs[0].(*ast.CallExpr).Fun))
+				} else {
+					steps = append(steps, "if:"+c20Src(x.Cond))
+				}
+			case *ast.AssignStmt:
+				if c, ok := x.Rhs[0].(*ast.CallExpr); ok {
+					steps = append(steps, "call:"+c20Src(c.Fun))
+				}
+			case *ast.SwitchStmt:
+				steps = append(steps, "switch:"+c20Src(x.Tag))
+				for _, cc := range x.Body.List {
+					cl := cc.(*ast.CaseClause)
+					returns := false
+					for _, s := range cl.Body {
+						if _, ok := s.(*ast.ReturnStmt); ok {
+							returns = true
+						}
+					}
+					if cl.List == nil && !returns {
+						formats = append(formats, "<default accepts>")
+					}
+					for _, e := range cl.List {
+						if bl, ok := e.(*ast.BasicLit); ok && !returns {
+							v, _ := strconv.Unquote(bl.Value)
+							formats = append(formats, v)
+						}
+					}
+				}
+			}
+		}
+	}
+	l.def("loadSteps", "List String", leanStrList(steps), steps)
+	l.def("loggerFormats", "List (List Nat)", c20BytesList(formats), formats)
 }
